@@ -169,7 +169,7 @@ package tchannel
 
 // call req: flags:1(by caller) ttl:4 tracing:25 service~1 nh:1 (hk~1 hv~1){nh}
 //@ func (m *callReq) read(r *typed.ReadBuffer) (err error)
-//@   modifies m.TimeToLive, m.Tracing.spanID, m.Tracing.parentID, m.Tracing.traceID, m.Tracing.flags, m.Service, m.Headers, r.remaining, r.err
+//@   modifies m.*, r.remaining, r.err
 //@   ensures err == r.err
 //@   ensures err == nil && old(r.err) == nil ==> len(old(r.remaining)) >= 31 &&
 //@             m.TimeToLive == be32(old(r.remaining), 0) * 1000000 && m.Tracing.spanID == be64(old(r.remaining), 4) &&
@@ -192,7 +192,7 @@ package tchannel
 
 // call res: flags:1(by caller) code:1 tracing:25 nh:1 (hk~1 hv~1){nh}
 //@ func (m *callRes) read(r *typed.ReadBuffer) (err error)
-//@   modifies m.ResponseCode, m.Tracing.spanID, m.Tracing.parentID, m.Tracing.traceID, m.Tracing.flags, m.Headers, r.remaining, r.err
+//@   modifies m.*, r.remaining, r.err
 //@   ensures err == r.err
 //@   ensures err == nil && old(r.err) == nil ==> len(old(r.remaining)) >= 27 &&
 //@             m.ResponseCode == u8at(old(r.remaining), 0) && m.Tracing.spanID == be64(old(r.remaining), 1) &&
@@ -235,7 +235,7 @@ package tchannel
 
 // init: version:2 nh:2 (key~2 value~2){nh}
 //@ func (m *initMessage) read(r *typed.ReadBuffer) (err error)
-//@   modifies m.Version, m.initParams, r.remaining, r.err
+//@   modifies m.*, r.remaining, r.err
 //@   ensures err == r.err
 //@   ensures err == nil && old(r.err) == nil ==> len(old(r.remaining)) >= 4 && m.Version == be16(old(r.remaining), 0) && m.initParams != nil
 //@   loop 0 invariant old(r.err) != nil ==> r.err == old(r.err)
@@ -422,22 +422,30 @@ package tchannel
 //@ ghost func cssum(c int) int
 //@ ghost func tcode(obj Checksum) int
 
+// ctype: the type code of a checksum value, defined by the implementation where
+// the implementation is the library's own (abstraction function): None for the
+// null checksum, the checksumType field for a hash checksum; the ghost tcode
+// for anything else. CSreal: the object really computes a 4-byte checksum (the
+// null checksum keeps no state: Add/Reset have no effect on it).
+//@ pred ctype(c Checksum) := ite(istype(c, nullChecksum), 0, ite(istype(c, *hashChecksum), c.(*hashChecksum).checksumType, tcode(c)))
+//@ pred CSreal(c Checksum) := ChecksumType(ctype(c)).ChecksumSize() == 4
+
 //@ iface Checksum.TypeCode() (t ChecksumType)
 //@   modifies nothing
-//@   ensures t == tcode(self)
+//@   ensures t == ctype(self)
 //@ iface Checksum.Size() (n int)
 //@   modifies nothing
-//@   ensures n == ChecksumType(tcode(self)).ChecksumSize()
+//@   ensures n == ChecksumType(ctype(self)).ChecksumSize()
 //@ iface Checksum.Add(b []byte) (r []byte)
 //@   modifies cs(self)
-//@   ensures cs(self) == csupd(old(cs(self)), b)
+//@   ensures CSreal(self) ==> cs(self) == csupd(old(cs(self)), b)
 //@ iface Checksum.Sum() (r []byte)
 //@   modifies nothing
-//@   ensures len(r) == ChecksumType(tcode(self)).ChecksumSize()
+//@   ensures len(r) == ChecksumType(ctype(self)).ChecksumSize()
 //@   ensures len(r) == 4 ==> be32(r, 0) == cssum(cs(self))
 //@ iface Checksum.Reset()
 //@   modifies cs(self)
-//@   ensures cs(self) == csinit()
+//@   ensures CSreal(self) ==> cs(self) == csinit()
 //@ iface Checksum.Release()
 //@   modifies nothing
 
@@ -457,12 +465,13 @@ package tchannel
 //@   property C03 C02
 
 // A checksum handed out for a message starts from the initial state (pooled
-// objects are Reset) and has the requested type (pool discipline, T3).
+// objects are Reset) and has the requested type (pool discipline, T3) -- except
+// that the Farmhash pool hands out null checksums (type code None).
 //@ func (t ChecksumType) New() (c Checksum)
 //@   requires t < 4
 //@   modifies cs(c)
-//@   ensures c != nil && cs(c) == csinit()
-//@   defines tcode(c) == t
+//@   ensures c != nil && (CSreal(c) ==> cs(c) == csinit())
+//@   defines !istype(c, nullChecksum) ==> ctype(c) == t
 //@   property C02 C03
 
 //@ func (t ChecksumType) Release(checksum Checksum)
@@ -470,42 +479,47 @@ package tchannel
 //@   property C02
 
 // hashChecksum: the concrete object folds exactly the bytes it is given into
-// its hash once, reports the hash's sum, and resets the hash (hs = ghost state
-// of the hash.Hash, T3).
-//@ ghostfield hs
+// its hash once, reports the hash's sum, and resets the hash. The state of the
+// hash.Hash is accounted on the hash checksum that owns it (hownr(hash), T3):
+// cs(h) IS the state of h.hash.
+//@ ghost func hownr(x hash.Hash) *hashChecksum
 //@ iface hash.Hash.Write(p []byte) (n int, err error)
-//@   modifies hs(self)
-//@   ensures hs(self) == csupd(old(hs(self)), p)
+//@   modifies cs(hownr(self))
+//@   ensures cs(hownr(self)) == csupd(old(cs(hownr(self))), p)
 //@ iface hash.Hash.Sum(b []byte) (r []byte)
 //@   modifies nothing
-//@   ensures len(r) == len(b) + 4 && be32(r, len(b)) == cssum(hs(self))
+//@   ensures len(r) == len(b) + 4 && be32(r, len(b)) == cssum(cs(hownr(self)))
 //@ iface hash.Hash.Reset()
-//@   modifies hs(self)
-//@   ensures hs(self) == csinit()
+//@   modifies cs(hownr(self))
+//@   ensures cs(hownr(self)) == csinit()
 //@ iface hash.Hash.Size() (n int)
 //@   modifies nothing
 //@   ensures n == 4
+
+// A hash checksum is built once, by newHashChecksum, around a CRC-32 hash.
+//@ structinv (h *hashChecksum) established newHashChecksum : h.hash != nil && len(h.sumCache) == 0 && (h.checksumType == ChecksumTypeCrc32 || h.checksumType == ChecksumTypeCrc32C)
 
 //@ func (h *hashChecksum) TypeCode() (t ChecksumType)
 //@   ensures t == h.checksumType
 //@   property C02
 //@ func (h *hashChecksum) Add(b []byte) (r []byte)
-//@   requires h.hash != nil
-//@   modifies hs(h.hash)
+//@   modifies cs(h)
+//@   defines hownr(h.hash) == h
 //@   label adds-exactly-b-once
-//@   ensures hs(h.hash) == csupd(old(hs(h.hash)), b)
+//@   ensures cs(h) == csupd(old(cs(h)), b)
 //@   property C02
 //@ func (h *hashChecksum) Sum() (r []byte)
-//@   requires h.hash != nil
-//@   ensures len(r) == len(h.sumCache) + 4 && be32(r, len(h.sumCache)) == cssum(hs(h.hash))
+//@   defines hownr(h.hash) == h
+//@   ensures len(r) == len(h.sumCache) + 4 && be32(r, len(h.sumCache)) == cssum(cs(h))
 //@   property C02
 //@ func (h *hashChecksum) Reset()
-//@   requires h.hash != nil
-//@   modifies hs(h.hash)
+//@   modifies cs(h)
+//@   defines hownr(h.hash) == h
 //@   label reset-returns-to-initial-state
-//@   ensures hs(h.hash) == csinit()
+//@   ensures cs(h) == csinit()
 //@   property C02
 //@ func newHashChecksum(t ChecksumType, hash hash.Hash) (h *hashChecksum)
+//@   requires hash != nil && (t == ChecksumTypeCrc32 || t == ChecksumTypeCrc32C)
 //@   ensures fresh(h) && h.checksumType == t && h.hash == hash && len(h.sumCache) == 0
 //@   property C02
 //@ func (c nullChecksum) TypeCode() (t ChecksumType)
@@ -546,7 +560,7 @@ package tchannel
 //@   label writes-what-fits
 //@   ensures (len(b) <= len(old(c.contents.remaining)) ==> n == len(b)) && (len(b) > len(old(c.contents.remaining)) ==> n == len(old(c.contents.remaining)))
 //@   label checksum-over-the-written-bytes
-//@   ensures cs(c.checksum) == csupd(old(cs(c.checksum)), old(b[:n]))
+//@   ensures CSreal(c.checksum) ==> cs(c.checksum) == csupd(old(cs(c.checksum)), old(b[:n]))
 //@   label bytes-copied-in-order
 //@   ensures samebytes(old(c.contents.remaining), 0, old(b), 0, n)
 //@   ensures c.contents.remaining == old(c.contents.remaining)[n:] && c.contents.err == nil
@@ -566,7 +580,7 @@ package tchannel
 // the more-fragments flag is set iff asked (never cleared).
 //@ func (f *writableFragment) finish(hasMoreFragments bool)
 //@   requires f.checksum != nil && (f.flagsRef == nil || len(f.flagsRef) >= 1)
-//@   requires len(f.checksumRef) == ChecksumType(tcode(f.checksum)).ChecksumSize()
+//@   requires len(f.checksumRef) == ChecksumType(ctype(f.checksum)).ChecksumSize()
 //@   requires arr(f.flagsRef) == arr(f.checksumRef) && off(f.flagsRef) < off(f.checksumRef) && f.flagsRef != nil
 //@   requires off(f.checksumRef) + len(f.checksumRef) <= off(f.flagsRef) + len(f.flagsRef)
 //@   modifies elems(f.checksumRef), elems(f.flagsRef)
@@ -623,7 +637,7 @@ package tchannel
 //@   ensures istype(self, *initRes) && err == nil && old(w.err) == nil ==> len(old(w.remaining)) >= 2 && be16(old(w.remaining), 0) == self.(*initRes).Version
 //@   ensures istype(self, *errorMessage) && err == nil && old(w.err) == nil ==> len(old(w.remaining)) >= 2 && u8at(old(w.remaining), 0) == self.(*errorMessage).errCode
 //@ iface message.read(r *typed.ReadBuffer) (err error)
-//@   modifies r.remaining, r.err, self.*
+//@   modifies r.remaining, r.err, self.*, self.(*initMessage).*
 //@   ensures typed.Suffix(r.remaining, old(r.remaining))
 //@   ensures old(r.err) == nil && err == nil ==> r.err == nil
 //@   ensures istype(self, *initReq) && err == nil && old(r.err) == nil ==> len(old(r.remaining)) >= 2 && self.(*initReq).Version == be16(old(r.remaining), 0)
@@ -644,7 +658,7 @@ package tchannel
 //@        f.contents.buffer == f.frame.Payload && typed.WB(f.contents) &&
 //@        f.flagsRef != nil && arr(f.flagsRef) == arr(f.frame.Payload) && off(f.flagsRef) == off(f.frame.Payload) && len(f.flagsRef) >= 1 &&
 //@        arr(f.checksumRef) == arr(f.frame.Payload) && off(f.checksumRef) > off(f.flagsRef) && len(f.flagsRef) == len(f.frame.Payload) &&
-//@        len(f.checksumRef) == ChecksumType(tcode(f.checksum)).ChecksumSize() &&
+//@        len(f.checksumRef) == ChecksumType(ctype(f.checksum)).ChecksumSize() &&
 //@        off(f.checksumRef) + len(f.checksumRef) <= off(f.contents.remaining)
 
 //@ func (w *reqResWriter) newFragment(initial bool, checksum Checksum) (fragment *writableFragment, err error)
@@ -653,7 +667,7 @@ package tchannel
 //@   label fragment-wraps-a-full-frame
 //@   ensures err == nil ==> WF(fragment) && fragment.checksum == checksum && fragment.contents.err == nil
 //@   label checksum-type-byte-precedes-checksum
-//@   ensures err == nil ==> u8at(fragment.frame.Payload, off(fragment.checksumRef) - off(fragment.frame.Payload) - 1) == tcode(checksum)
+//@   ensures err == nil ==> u8at(fragment.frame.Payload, off(fragment.checksumRef) - off(fragment.frame.Payload) - 1) == ctype(checksum)
 //@   label frame-carries-the-exchange-id
 //@   ensures err == nil ==> fragment.frame.Header.ID == w.mex.msgID
 //@   property C01 C02 C10
@@ -940,12 +954,12 @@ package tchannel
 //@   ensures old(r.err) != nil ==> nrecv(r.receiver) == old(nrecv(r.receiver))
 //@   ensures err != io.EOF
 //@   label checksum-type-constant-across-fragments
-//@   ensures err == nil ==> r.checksum != nil && tcode(r.checksum) == r.curFragment.checksumType
+//@   ensures err == nil ==> r.checksum != nil && ctype(r.checksum) == r.curFragment.checksumType
 //@   ensures err == nil && old(r.checksum) != nil ==> r.checksum == old(r.checksum)
 //@   label checksum-verified
 //@   ensures err == nil && len(r.curFragment.checksum) == 4 ==> be32(r.curFragment.checksum, 0) == cssum(cs(r.checksum))
 //@   label every-chunk-folded-into-checksum
-//@   loop 0 step cs(r.checksum) == csupd(prev(cs(r.checksum)), chunkData) && r.checksum == prev(r.checksum)
+//@   loop 0 step (CSreal(r.checksum) ==> cs(r.checksum) == csupd(prev(cs(r.checksum)), chunkData)) && r.checksum == prev(r.checksum)
 //@   label each-chunk-appended-in-order
 //@   loop 0 step len(r.remainingChunks) == prev(len(r.remainingChunks)) + 1 && r.remainingChunks[len(r.remainingChunks)-1] == chunkData
 //@   label chunk-parse-loop-terminates
@@ -959,7 +973,7 @@ package tchannel
 //@   defines err == nil ==> chunk0off(r.curFragment) == off(r.curChunk) && chunk0len(r.curFragment) == len(r.curChunk)
 //@   ensures r.receiver == old(r.receiver) && r.state == old(r.state)
 //@   loop 0 invariant r.curFragment != nil && r.curFragment.contents != nil && r.checksum != nil && r.receiver == old(r.receiver) && r.state == old(r.state)
-//@   loop 0 invariant RF(r.curFragment) && tcode(r.checksum) == r.curFragment.checksumType && r.err == nil
+//@   loop 0 invariant RF(r.curFragment) && (!istype(r.checksum, nullChecksum) ==> ctype(r.checksum) == r.curFragment.checksumType) && r.err == nil
 //@   loop 0 invariant old(r.checksum) != nil ==> r.checksum == old(r.checksum)
 //@   property C01 C02 C03 C12
 
